@@ -49,6 +49,20 @@ def is_type_gate(test, func, raising_when_true):
                for o in c.ops if isinstance(o, (ast.In, ast.NotIn)))
 
 
+def type_gate_dominates(ctx, clause):
+    """asarray: the supported-type gate dominates every reachable file-system effect.  Shared with C02: a refused
+    (re-)creation must not leave a truncated data file next to the previous description."""
+    f = ctx.repo.func('array.asarray')
+    GA = GateAnalysis(ctx, PredGate('supported-type gate', is_type_gate, {'TypeError'}))
+    sites = GA.gated_sites(f, _mut_site)
+    ung = GA.ungated(f, _mut_site)
+    ctx.floor('effect sites under asarray', len(sites), 4)
+    ctx.decide(bool(GA.local_gates(f)) and not ung, 'R-DOM', clause, f, None, 'type-gate-dominates',
+               f'asarray: the supported-type gate dominates all {len(sites)} reachable file-system effects',
+               detail='an unsupported element type is rejected only after something was created on disk: ' +
+                      '; '.join(f'{e.describe()} via {chain_text(ch)}' for ch, e in ung[:2]))
+
+
 def run(ctx):
     f = ctx.repo.func('array.asarray')
     gen = ctx.repo.func('array._archunkgenerator')
@@ -62,14 +76,7 @@ def run(ctx):
     # chunklen- and history-independence: no memoised helper result is advanced in place
     memoised_results_not_mutated(ctx, 'D6')
     # D1
-    GA = GateAnalysis(ctx, PredGate('supported-type gate', is_type_gate, {'TypeError'}))
-    sites = GA.gated_sites(f, _mut_site)
-    ung = GA.ungated(f, _mut_site)
-    ctx.floor('C01 effect sites under asarray', len(sites), 4)
-    ctx.decide(bool(GA.local_gates(f)) and not ung, 'R-DOM', 'D1', f, None, 'type-gate-dominates',
-               f'asarray: the supported-type gate dominates all {len(sites)} reachable file-system effects',
-               detail='an unsupported element type is rejected only after something was created on disk: ' +
-                      '; '.join(f'{e.describe()} via {chain_text(ch)}' for ch, e in ung[:2]))
+    type_gate_dominates(ctx, 'D1')
     gates = [n for n in own_nodes(f.node) if isinstance(n, ast.If) and is_type_gate(n.test, f, always_raises(n.body))]
     if gates:
         # the gate tests the chunk whose dtype is imposed
